@@ -73,12 +73,20 @@ def is_rest_value(v):
     return isinstance(v, dict) and 'rest' in v
 
 
+INF = float('inf')
+
+
 def num(v):
-    return v['rest'] if is_rest_value(v) else v
+    """Number inside a value; 'inf' stands for float('inf') (json-able)."""
+    v = v['rest'] if is_rest_value(v) else v
+    return INF if isinstance(v, str) and v == 'inf' else v
 
 
 def event_is_rest(ev):
-    return any(is_rest_value(v) for k, v in ev.items() if k != 'scale')
+    """Rest forms: a Rest object as the value of any key, or the event type
+    'rest' (Rest help file; both are the forms the port's is_rest names)."""
+    return ev.get('type') == 'rest' or any(
+        is_rest_value(v) for k, v in ev.items() if k != 'scale')
 
 
 # ---------------------------------------------------------------- scales
@@ -92,12 +100,18 @@ def scale_parts(scale):
 
 
 def degree_to_semitones(scale, degree):
-    """Semitones above the root of scale degree `degree` (integer valued)."""
+    """Semitones above the root of scale degree `degree`.  Pattern Guide 07 /
+    SimpleNumber:degreeToKey: the degree is rounded to the nearest integer
+    (halves up) and ten times the remainder is the accidental - 2.1 is degree
+    2 raised by one step of stepsPerOctave / 12 (a semitone for octave ratio
+    2), 1.9 is degree 2 lowered by one."""
     degrees, tuning, ratio = scale_parts(scale)
     size = len(degrees)
-    d = int(degree)
+    d = int(math.floor(degree + 0.5))
+    acc = (degree - d) * 10.0
     octv, idx = d // size, d % size         # floor division / modulo
-    return 12.0 * math.log2(ratio) * octv + tuning[degrees[idx]]
+    spo = 12.0 * math.log2(ratio)
+    return spo * octv + tuning[degrees[idx]] + acc * (spo / 12.0)
 
 
 def steps_per_octave(scale):
@@ -153,6 +167,7 @@ def resolve(ev):
         r.amp, r.amp_source = DEFAULTS['amp'], 'default'
     # duration
     r.delta = num(ev['delta']) if 'delta' in ev else g('dur') * g('stretch')
+    # (delta None / inf: the stream is not resumed after this event)
     r.sustain = (num(ev['sustain']) if 'sustain' in ev
                  else g('dur') * g('legato') * g('stretch'))
     r.rest = event_is_rest(ev)
@@ -288,18 +303,30 @@ def timeline(p):
         for keys in _bind_events(p[1]):
             e = Ev(keys)
             items.append((t, e))
+            if e.delta is None or e.delta == INF:
+                # Event help: a nil delta ends the player; an infinite one is
+                # never due.  Either way this is the last element and the last
+                # wake-up of the player
+                return Timeline(items, t, flags={'ends-without-resuming'})
             t += e.delta
         return Timeline(items, t)
     if kind == 'pmono':
         _mono_counter[0] += 1
         mid = _mono_counter[0]
-        t, items = 0.0, []
+        t, items, created, flags = 0.0, [], False, set()
         for i, keys in enumerate(_bind_events(p[2])):
             keys = dict(keys)
-            e = Ev(keys, 'mono_on' if i == 0 else 'mono_set', (mid, p[1]))
+            # PmonoStream: the synth is created by the first event that is
+            # played; rests before it send nothing and create nothing
+            e = Ev(keys, 'mono_set' if created else 'mono_on', (mid, p[1]))
+            if not created and e.rest:
+                flags.add('pmono-leading-rest')
+            elif not created:
+                created = True
             items.append((t, e))
             t += e.delta
-        return Timeline(items, t, [(t, mid, True)])
+        return Timeline(items, t, [(t, mid, True)] if created else [],
+                        flags=flags)
     if kind == 'pdelta':
         tl = timeline(p[2])
         d = p[1]
@@ -416,7 +443,8 @@ def stopped(tl, stop):
     after its start (stop is never an onset): elements before the stop; voices
     of Pmono that are sounding are released at the stop."""
     items = [(t, e) for t, e in tl.items if t < stop]
-    alive = {e.mono[0] for t, e in items if e.mono}
+    later = [t for t, e in tl.items if t >= stop]
+    alive = {e.mono[0] for t, e in items if e.mono and not e.rest}
     rel = []
     for t, m, x in tl.releases:
         if m not in alive:
@@ -425,7 +453,11 @@ def stopped(tl, stop):
             rel.append((stop, m, True))
         else:
             rel.append((t, m, x))
-    return Timeline(items, min(tl.total, stop), rel, tl.sequential, tl.flags)
+    out = Timeline(items, min(tl.total, stop), rel, tl.sequential, tl.flags)
+    # the wake-up that was pending when the player was stopped still happens
+    # (and does nothing): not later than its next element / its end
+    out.pending_wake = min(later + [tl.total]) if tl.total > stop else None
+    return out
 
 
 def _ended_before(tl, mono_id, d):
